@@ -33,5 +33,9 @@ def run(idx, rep, tier):
     rep.extra["njit_functions"] = len(njit)
     rep.extra["eager_functions"] = len(eagerf)
     misc2.r_dupcond(idx, rep, [m.name for m in idx.lib_modules()], floor=3)
+    # compiled code raises ZeroDivisionError where the interpreted numpy scalar division gives inf / nan: in the compiled closed-form distance functions a
+    # division by a magnitude sits on the non-zero side of a test of that magnitude
+    safediv.r_safediv(idx, rep, floor=3, unknown_ceiling=2,
+                      funcs=[f for m in idx.lib_modules() if m.name.startswith("distance3d.distance") for f in m.functions.values() if any("njit" in d for d in f.decorators)])
     generic2.r_guardafteruse(idx, rep, [m.name for m in idx.lib_modules()], floor=8)
     unpack.r_unpack(idx, rep, floor=106)
